@@ -700,6 +700,26 @@ fn run_one(script: &J, work: &str) -> Result<Vec<J>, String> {
     // schedule, chosen from outside; used to hit the window between a resuming action and what follows it.
     // "main-first" is the opposite: the main thread gets the real-time priority, i.e. it handles a pipelined request
     // before a thread it has just woken up runs.
+    // "runner-main-coord": the cycle thread (the adapter's youngest thread: start_runner is the last thing the launch
+    // does) above the main thread above everything else, i.e. the coordinator only runs when both are blocked: a stop
+    // the cycle thread decides while the main thread works through a pipeline is looked at after the pipeline.
+    if script["sched"] == "runner-main-coord" {
+        let pid = x.c.child.id() as i32;
+        let mut tids: Vec<i32> = std::fs::read_dir(format!("/proc/{pid}/task")).map(|rd| rd.flatten().filter_map(|t| t.file_name().to_string_lossy().parse::<i32>().ok()).collect()).unwrap_or_default();
+        tids.sort();
+        let mut ok = 0;
+        if let Some(runner) = tids.last().copied().filter(|t| *t != pid) {
+            for (tid, prio) in [(runner, 20), (pid, 10)] {
+                let prm = libc::sched_param { sched_priority: prio };
+                if unsafe { libc::sched_setscheduler(tid, libc::SCHED_FIFO, &prm) } == 0 {
+                    ok += 1;
+                }
+            }
+        }
+        if ok < 2 {
+            eprintln!("dap-run: script {}: could not set the real-time priorities", script["id"]);
+        }
+    }
     if script["sched"] == "others-first" || script["sched"] == "main-first" {
         let main_first = script["sched"] == "main-first";
         let pid = x.c.child.id() as i32;
